@@ -182,7 +182,7 @@ var (
 func Getppid() int                              { return 4241 }
 func Getuid() int                               { return 1000 }
 func Geteuid() int                              { return 1000 }
-func Getwd() (string, error)                    { return "/work", nil }
+func Getwd() (string, error)                    { return simos.Cwd, nil }
 func Hostname() (string, error)                 { return "simhost", nil }
 func Environ() []string                         { return nil }
 func Readlink(name string) (string, error) {
